@@ -13,7 +13,7 @@ use std::path::Path;
 
 pub struct C06;
 
-pub const BEST: &[&str] = &["head", "roots", "sizes", "utxo.", "outpos", "tail"];
+pub const BEST: &[&str] = &["head", "roots", "sizes", "utxo.", "outpos", "tail", "nrd."];
 
 /// Universe: C02's universe A shape (two forks with spends and reorgs in both directions)
 /// plus, for selected valid blocks, every corruption of the catalogue.
@@ -58,7 +58,17 @@ pub fn universe_lifted(sc: &uni::Scratch, tier: Tier, lift: usize) -> Tree {
 	tb.add_invalid("i:never-created", Some(m4), &BlockSpec::with(83, vec![uni::spend_plain(&kc, &[(999, 12345 * m)], &[(104, 12344 * m)], None, 6)]));
 	tb.add_invalid("i:immature-cb3-at-5", Some(m4), &BlockSpec::with(84, vec![uni::spend_coinbase(&kc, 3, REWARD, &[(105, REWARD - m)], 7)]));
 	let _ = c02::universe_a; // (universe A itself is explored by C02)
-	tb.finish()
+	// transactions offered to Chain::validate_tx at every state (admitted or refused, nothing may change)
+	let txs = vec![
+		("t:spend-cb2".to_string(), uni::spend_coinbase(&kc, 2, REWARD, &[(120, REWARD - m)], 20)),
+		("t:spend-100".to_string(), uni::spend_plain(&kc, &[(100, xv)], &[(121, xv - m)], None, 21)),
+		("t:never-created".to_string(), uni::spend_plain(&kc, &[(999, 12345 * m)], &[(122, 12344 * m)], None, 22)),
+		("t:duplicates-output-100".to_string(), uni::spend_coinbase(&kc, 2, REWARD, &[(100, xv)], 23)),
+		("t:cb2-and-missing".to_string(), uni::spend_plain(&kc, &[(100, xv), (998, 5 * m)], &[(123, xv)], None, 24)),
+	];
+	let mut t = tb.finish();
+	t.txs = txs;
+	t
 }
 
 struct Inv06 {
@@ -74,6 +84,19 @@ impl Invariant for Inv06 {
 		let t = live.tree;
 		let case = || case_json(&self.inst, t, prefix);
 		let ev = prefix.last().unwrap();
+		if let Ev::T(k) = ev {
+			// a transaction offered to the chain (the pool's gate), admitted or refused: nothing at all may change
+			let (ok, cls) = crate::c13::ref_validate_tx(t, live.model.head, &t.txs[*k].1);
+			if before != after {
+				rep.violation(
+					format!("tx-changed-state:{}", if out.ok { "admitted" } else { "refused" }),
+					format!("{} ({}) changed the node's state: {:?}", ev.show(t), if out.ok { "Ok".to_string() } else { format!("refused: {}", out.err) }, before.diff(after).into_iter().take(4).collect::<Vec<_>>()),
+					case(),
+				);
+			}
+			rep.outcome(&format!("untouched:tx:{}:{}{}", cls.split(':').next().unwrap(), if out.ok { "admitted" } else { "refused" }, if ok == out.ok { "" } else { ":model-differs" }));
+			return;
+		}
 		let i = match ev {
 			Ev::B(i) | Ev::H(i) | Ev::HS(i) => *i,
 			_ => return,
@@ -137,6 +160,39 @@ impl Invariant for Inv06 {
 		// differential continuation: the valid block the bad one was derived from must now be
 		// processed exactly as by a twin that never saw the bad input
 		let t = live.tree;
+		if let Some(Ev::T(_)) = prefix.last() {
+			// differential continuation: up to two valid blocks that can be delivered now are processed by this
+			// object (which has just judged the transaction) and by a twin that never saw it
+			let d = sc.fresh("twin");
+			uni::copy_dir(parent_dir, &d);
+			{
+				let mut twin = Live::open_model(t, &d, live.opts, live.model.clone());
+				for _ in 0..2 {
+					let next = (0..t.blocks.len()).find(|i| {
+						t.valid(*i).is_ok() && !live.model.accepted.contains(i) && t.blocks[*i].parent.map(|p| live.model.accepted.contains(&p)).unwrap_or(true)
+					});
+					let i = match next {
+						Some(i) => i,
+						None => break,
+					};
+					let o1 = live.apply(&Ev::B(i));
+					let o2 = twin.apply(&Ev::B(i));
+					let (f1, f2) = (live.fp(), twin.fp());
+					rep.evaluations += 2;
+					if o1.ok != o2.ok || f1 != f2 {
+						rep.violation(
+							"twin-diverges:after-tx".to_string(),
+							format!("after {} the valid block {} gives {} / on a twin that never saw the transaction {} ; state diff {:?}", prefix.last().unwrap().show(t), t.blocks[i].name, if o1.ok { "Ok".into() } else { o1.err.clone() }, if o2.ok { "Ok".into() } else { o2.err.clone() }, f1.diff(&f2).into_iter().take(3).collect::<Vec<_>>()),
+							case_json(&self.inst, t, prefix),
+						);
+						break;
+					}
+					rep.outcome("twin:agree:after-tx");
+				}
+			}
+			let _ = std::fs::remove_dir_all(&d);
+			return;
+		}
 		let i = match prefix.last() {
 			Some(Ev::B(i)) => *i,
 			_ => return,
@@ -181,10 +237,13 @@ fn run(tier: Tier, shard: usize, n: usize) -> Report {
 	let mut rep = Report::new();
 	let sc = uni::Scratch::new("c06");
 	let scr = &sc;
-	for lift in [0usize, 12] {
-	let iname: &'static str = if lift == 0 { "U" } else { "U+12" };
+	// U: header versions 1-3; U+12: version 5 throughout; N: C13's NRD universe (NRD enabled, duplicate-excess
+	// kernels on two forks) with NRD transactions offered to validate_tx, whose kernels are applied to a
+	// read-only extension and to the recent-kernel index of a batch that must be discarded
+	for lift in [0usize, 12, 99] {
+	let iname: &'static str = if lift == 0 { "U" } else if lift == 12 { "U+12" } else { "N" };
 	crate::chainx::guarded(iname, &mut rep, move |rep| {
-		let tree = universe_lifted(scr, tier, lift);
+		let tree = if lift == 99 { crate::c13::universe_nrd(scr) } else { universe_lifted(scr, tier, lift) };
 		let mut inv = Inv06 { inst: iname.into() };
 		let is_lift = |i: usize| tree.blocks[i].name.starts_with('p');
 		let prelude: Vec<Ev> = (0..tree.blocks.len()).filter(|i| is_lift(*i)).map(Ev::B).collect();
@@ -194,6 +253,7 @@ fn run(tier: Tier, shard: usize, n: usize) -> Report {
 		ex.probe_split = true;
 		let evs: Vec<Ev> = (0..tree.blocks.len()).filter(|i| !is_lift(*i) && tree.valid(*i).is_ok()).map(Ev::B).collect();
 		let mut probes: Vec<Ev> = (0..tree.blocks.len()).filter(|i| tree.valid(*i).is_err()).map(Ev::B).collect();
+		probes.extend((0..tree.txs.len()).map(Ev::T));
 		// header-first delivery and header batches ending in a bad header
 		for i in 0..tree.blocks.len() {
 			if let Some(b) = &tree.blocks[i].bad {
@@ -237,7 +297,7 @@ impl Engine for C06 {
 		uni::init_thread();
 		let sc = uni::Scratch::new("replay");
 		let lift = if case["instance"].as_str() == Some("U+12") { 12 } else { 0 };
-		let tree = universe_lifted(&sc, Tier::Thorough, lift);
+		let tree = if case["instance"].as_str() == Some("N") { crate::c13::universe_nrd(&sc) } else { universe_lifted(&sc, Tier::Thorough, lift) };
 		let mut evs: Vec<Value> = (1..=lift).map(|i| json!(format!("B(p{})", i))).collect();
 		evs.extend(case["events"].as_array().cloned().unwrap_or_default());
 		crate::chainx::replay_events(&tree, &json!({"events": evs}), Options::NONE, &sc)
